@@ -42,7 +42,9 @@ META = {
         "in {off, on}, target in {jsonschema, python}) and edit(p := A | B | C); BFS "
         "until no new state (depth cap D); every transition is checked against the "
         "uncached reference run of the same text; plus per (seed model, target) pickle "
-        "round-trip transparency; non-trivial = transitions that ran the generator"
+        "round-trip transparency, and the round-trip of every generated 3-class "
+        "hierarchy (all DAGs x abstract masks x ownership x model-type placements); "
+        "non-trivial = transitions that ran the generator / hierarchies with an edge"
     ),
     "bounds": {
         "quick": "all reachable states, depth cap D=4 (fixed point reached earlier), 11 operations per state; pickle round-trip for 8 seed models x 7 targets",
@@ -379,6 +381,12 @@ def graph_differences(first: Any, second: Any, limit: int = 5) -> List[str]:
                 differences.append(f"{path}: aliasing differs")
             continue
         mapping[id(a)] = id(b)
+        if type(a).__module__.startswith("docutils"):
+            # Third-party document trees: compare what they denote, not their
+            # (pickling-dependent) internal bookkeeping.
+            if hasattr(a, "pformat") and a.pformat() != b.pformat():
+                differences.append(f"{path}: docutils trees differ")
+            continue
         if isinstance(a, (list, tuple)):
             if len(a) != len(b):
                 differences.append(f"{path}: length {len(a)} vs {len(b)}")
@@ -526,8 +534,57 @@ def check_pickle(model_name: str, target: Optional[str], base: pathlib.Path) -> 
 # --------------------------------------------------------------------------------------
 
 
+def check_pickle_generated(bases: Any, tier: str) -> Result:
+    """Pickle round-trip of every generated 3-class hierarchy with these bases."""
+    from aas_core_codegen import intermediate, run
+    from verif.checks import c05
+
+    result = Result()
+    for desc in c05.descriptions(tier, 3, list(bases)):
+        if desc["wmt"].get(0) is True and desc["wmt"].get(2) is False:
+            continue
+        source = c05.render(desc)
+        case = {"kind": "pickle-generated", "desc": desc}
+        table, error = c05.translate(source)
+        result.states += 1
+        if error is not None or table is None:
+            result.outcomes.add("generated-rejected")
+            continue
+        result.evaluations += 1
+        result.transitions += 1
+        if any(len(b) > 0 for b in bases):
+            result.nontrivial += 1
+        try:
+            copy = pickle.loads(pickle.dumps(table))
+        except Exception as exc:
+            result.add_violation("pickle-crash:" + crash_signature(exc), short_exc(exc), case)
+            continue
+        differences = graph_differences(table, copy)
+        if differences:
+            result.add_violation("unpickled-graph-differs", "; ".join(differences), case)
+            result.outcomes.add("graph-differs")
+        elif intermediate.dump(table) != intermediate.dump(copy):
+            result.add_violation("unpickled-dump-differs", "intermediate.dump differs", case)
+        else:
+            # every query of the class relations must answer the same
+            for cls, cls_copy in zip(table.classes, copy.classes):
+                for other, other_copy in zip(table.classes, copy.classes):
+                    if cls.is_subclass_of(other) != cls_copy.is_subclass_of(other_copy):
+                        result.add_violation(
+                            "unpickled-query-differs",
+                            f"{cls.name}.is_subclass_of({other.name})",
+                            case,
+                        )
+            result.outcomes.add("graph-equal")
+    return result
+
+
 def shards(tier: str) -> List[Any]:
+    from verif.checks import c05
+
     result = [("histories", tier)]  # type: List[Any]
+    for bases in c05.base_choices(3):
+        result.append(("pickle-generated", tuple(bases), tier))
     models = list(harness.SMALL_SEEDS)
     if tier == "thorough":
         models.append("aas_core_meta.v3")
@@ -546,6 +603,8 @@ def work(shard: Any) -> Result:
     try:
         if shard[0] == "histories":
             return explore_histories(shard[1], base)
+        if shard[0] == "pickle-generated":
+            return check_pickle_generated(shard[1], shard[2])
         _, model, target = shard
         result = Result()
         violations, outcome = check_pickle(model, target, base)
@@ -571,6 +630,20 @@ def replay(case: Any) -> List[Violation]:
     try:
         if case["kind"] == "pickle":
             return check_pickle(case["model"], case["target"], base)[0]
+        if case["kind"] == "pickle-generated":
+            from aas_core_codegen import intermediate
+            from verif.checks import c05
+
+            desc = dict(case["desc"])
+            desc["wmt"] = {int(k): v for k, v in desc["wmt"].items()}
+            table, error = c05.translate(c05.render(desc))
+            if table is None:
+                return []
+            copy = pickle.loads(pickle.dumps(table))
+            differences = graph_differences(table, copy)
+            if differences:
+                return [Violation("unpickled-graph-differs", "; ".join(differences), case)]
+            return []
         install_audit()
         world = World(base)
         world.reset()
